@@ -94,6 +94,11 @@ impl AppendTextComment {
 
 impl Rule for AppendTextComment {
     fn process(&self, block: &mut Block, context: &Context) -> RuleProcessResult {
+        if let TextContent::FilePath(file_path) = &self.text_content {
+            // what is written for the current file depends on the content of that file
+            context.add_file_dependency(context.project_location().join(file_path));
+        }
+
         let text = self.text(context.project_location())?;
 
         if text.is_empty() {
